@@ -16,4 +16,4 @@ reps = gc_scenarios.run()
 bad = [r for r in reps if "violation" in r]
 print(json.dumps({"evaluations": len(reps), "distinct_nontrivial": len(reps), "n_failures": len(bad), "failures": bad,
                   "bound": "gc scenario family: 2 store classes x 2 algorithms x shallow/expand x dry/real x read-only x directory-only garbage x "
-                           "used given as list/set/generator (exhaustive)"}))
+                           "used given as list/set/generator (exhaustive); listings with a path/backslash twin; expanding runs with an unreadable used listing"}))
